@@ -22,7 +22,9 @@ PENDING_TEXT = {
     "C05": ["ShapeVerif.fromStr_total", "ShapeVerif.span_faithful", "ShapeVerif.entry_points_total",
             "ShapeVerif.sources_span_faithful", "ShapeVerif.tokenize_ok", "ShapeVerif.parse_leaves",
             "ShapeVerif.classifyArray_never_fails", "ShapeVerif.classifyArrayV_total",
-            "ShapeVerif.rejectDiagnostics_no_panic", "ShapeVerif.isSuperset_never_errs", "ShapeVerif.work_bounds"],
+            "ShapeVerif.rejectDiagnostics_no_panic", "ShapeVerif.isSuperset_never_errs", "ShapeVerif.work_bounds",
+            "ShapeVerif.text_layer_terminates", "ShapeVerif.parser_steps_linear", "ShapeVerif.twin_agrees",
+            "ShapeVerif.twin_total", "ShapeVerif.lexLoopO_eq"],
     "C07": ["ShapeVerif.render_independent", "ShapeVerif.same_document_same_result",
             "ShapeVerif.rerender_same_shape", "ShapeVerif.infer_member_order",
             "ShapeVerif.infer_payload_independent", "ShapeVerif.infer_factors", "ShapeVerif.infer_repetition",
@@ -113,7 +115,8 @@ PROPS = {
         "module": "ShapeVerif.Props.C09",
         "theorems": ["ShapeVerif.converge", "ShapeVerif.mergeRep_stable", "ShapeVerif.absorb_meaning_shapes",
                      "ShapeVerif.absorb_stable", "ShapeVerif.absorbed_upper",
-                     "ShapeVerif.size_independent_of_repetitions"],
+                     "ShapeVerif.size_independent_of_repetitions", "ShapeVerif.converge_text"],
+        "extra_modules": ["ShapeVerif.Props.TextLevel"],
         "statements": {
             "converge": "d ∈ h → fromSourcesDoc h = ok a → ∀ k, ∃ sk, fromSourcesDoc (h ++ [d]*k) = ok sk ∧ meaningEq sk a ∧ (1 ≤ k → fromSourcesDoc (h ++ [d]*(k+1)) = ok sk)",
             "absorb_stable": "a.wf → b.wf → isSubset b a → merger (merger a b) b = merger a b",
@@ -219,8 +222,10 @@ PROPS = {
             "entry_points_total": "from_sources, is_superset, is_superset_checked never panic either",
             "tokenize_ok": "every token is a non-empty range between character boundaries, tokens follow each other in order, String tokens span at least two characters, every lexer diagnostic (incl. the three kinds of check_string) is an ordered pair of boundaries",
             "parse_leaves": "the leaves of the recovering parser's tree are exactly the lexer's tokens in order (no recovery path drops, duplicates or reorders a token)",
+            "text_layer_terminates": "∀ t, the twins of the lexer loop and of rule_value that FAIL when the model's fuel runs out answer (and answer the model's result) from the fuel the model starts with: |t| for the lexer, 2·|tokens|+4 for the parser — the model's cut-off is never what ends a run, for any string (grammatical or not)",
+            "parser_steps_linear": "in every coherent parser state 2·|remaining tokens|+1 nested calls / loop iterations suffice for rule_value: every recursive call and every iteration of the two recovery loops is preceded by the consumption of a token",
         },
-        "partial": ["stack depth and wall-clock are not expressible in the model: recursion depth is bounded by the nesting limit (compared, not proved) and the real code is run on 100000-bracket and multi-hundred-kilobyte inputs under a per-operation time limit in a restartable child process",
+        "partial": ["'no unbounded loop' is a theorem for the lexer loop and the recovering parser (text_layer_terminates: linear step bounds for every string); the remaining functions of the model are structurally recursive on the tree / document / shape. Stack depth in bytes and wall-clock are not expressible in the model: the real code is run on 100000-bracket and multi-hundred-kilobyte inputs and on nesting in every position (16 one-hole contexts x 5 cores, depth 30-120, both paths) under a per-operation time limit in a restartable child process",
                     "work bounds are call counts (work_bounds, shared with C12)"],
         "rule": "as C04's corpus plus hostile sizes: 1000 and 100000 unbalanced/balanced brackets, 100000 nested `{\"a\":`, 300 KB (thorough 4 MB) strings with multi-byte characters, wide arrays, many siblings, unterminated escapes; serde_json values nested to serde_json's limit through the value path. Oracle: no panic, no crash, no timeout; every InvalidJson range lies inside the input on character boundaries and the fragment equals the input at that range (checked byte-wise in Python). Correspondence is one-sided for C05 (code panics/hangs ⇒ model panics): differences in the answer itself are C04's subject. Non-trivial = error answer or container.",
         "assumptions": ["frame size x 258 nested parse_rule calls fits the stack (validated by the runs)"],
@@ -259,7 +264,9 @@ PROPS = {
         "theorems": ["ShapeVerif.merger_idem", "ShapeVerif.merge_null_right", "ShapeVerif.merge_null_left",
                      "ShapeVerif.merger_comm_sem", "ShapeVerif.object_struct", "ShapeVerif.array_struct",
                      "ShapeVerif.scalar_struct", "ShapeVerif.sources_idem", "ShapeVerif.sources_null",
-                     "ShapeVerif.sources_comm"],
+                     "ShapeVerif.sources_comm", "ShapeVerif.sources_idem_text", "ShapeVerif.sources_null_text",
+                     "ShapeVerif.sources_comm_text"],
+        "extra_modules": ["ShapeVerif.Props.TextLevel"],
         "statements": {
             "merger_idem": "s.wf → merger s s = s",
             "merger_comm_sem": "a.wf → b.wf → ∀ d, admits (merger a b) d = admits (merger b a) d",
